@@ -90,12 +90,15 @@ def config():
             dst = os.path.join(alt, rel)
             text = open(os.path.join(harness, rel)).read() if text is None else text
             if not os.path.exists(dst) or open(dst).read() != text: open(dst, 'w').write(text)
-        put('Cargo.toml', man); put('src/lib.rs'); put('src/bin/memsize_probe.rs')
+        put('Cargo.toml', man); put('src/bin/memsize_probe.rs')
+        for f in sorted(os.listdir(os.path.join(harness, 'src'))):
+            if f.endswith('.rs'): put('src/' + f)
         if os.path.exists(os.path.join(harness, 'Cargo.lock')): put('Cargo.lock')
         harness = alt
         target = target or os.path.join(alt, 'target')
     if not target:
-        target = os.path.join(ROOT, '.cache', 'target-m') if harness == os.path.join(ROOT, 'harness') else os.path.join(harness, 'target-m')
+        # the same target directories as tools/check.py (debug: .cache/target, release: .cache/target-rel): the crate and the harness library are compiled once
+        target = os.path.join(ROOT, '.cache', 'target') if harness == os.path.join(ROOT, 'harness') else os.path.join(harness, 'target-m')
     return dict(harness=harness, repo=repo, target=target)
 
 # ------------------------------------------------------------------------------------------------
@@ -151,9 +154,9 @@ def proof_side(pid, bdir):
 # (b) the probe
 # ------------------------------------------------------------------------------------------------
 def build_probe(cfg):
-    env = dict(os.environ, CARGO_NET_OFFLINE='true', CARGO_TARGET_DIR=cfg['target'])
     problems = []
     def one(prof):
+        env = dict(os.environ, CARGO_NET_OFFLINE='true', CARGO_TARGET_DIR=tdir(cfg, 'release' if prof else 'debug'))
         rc, out = sh('timeout 1500 cargo build --offline %s --bin memsize_probe 2>&1' % prof, cwd=cfg['harness'], env=env, timeout=1600)
         if rc != 0:
             errs = re.findall(r'^error[^\n]*(?:\n[^\n]+){0,6}', out, re.M)
@@ -163,7 +166,8 @@ def build_probe(cfg):
             if p: problems.append(p)
     return problems
 
-def exe(cfg, prof): return os.path.join(cfg['target'], prof, 'memsize_probe')
+def tdir(cfg, prof): return cfg['target'] if prof == 'debug' else cfg['target'] + '-rel'
+def exe(cfg, prof): return os.path.join(tdir(cfg, prof), prof, 'memsize_probe')
 
 def run_gen(cfg, prof, seed, reps, only=None):
     cmd = [exe(cfg, prof), 'gen', str(seed), str(reps)] + ([only] if only else [])
